@@ -125,6 +125,8 @@ def _external(smt2, which):
 
 
 def discharge(ob, model_vars=None, use_external=True):
+    if z3.is_true(ob.claim):
+        ob.result = 'discharged'; ob.backend = 'trivial'; return ob
     so = z3.Solver(); so.set('timeout', Z3_TIMEOUT_MS)
     so.add(*ob.pc); so.add(z3.Not(ob.claim))
     t = time.time(); r = so.check(); ob.ms = (time.time() - t) * 1000; ob.backend = 'z3-' + z3.get_version_string()
@@ -221,7 +223,7 @@ def verify(contract, registry, src_root='/repo'):
     except (FileNotFoundError, StopIteration, SyntaxError) as ex:
         rep.status = 'undecided'; rep.reason = f'function not found / not parseable: {ex!r}'; rep.wall_s = time.time() - t0
         return rep
-    rep.paths = len(outs); rep.executor = x
+    rep.paths = len(outs); rep.executor = x; rep.outs = outs
     rep.unknown_calls = sorted(x.stats.get('unknown_calls', ()))
     mv = model_vars_of(x.params)
     obs = []
